@@ -3,6 +3,7 @@ pub mod c01;
 pub mod c02;
 pub mod c03;
 pub mod c05;
+pub mod c06;
 pub mod c07;
 pub mod c08;
 pub mod c10;
@@ -27,6 +28,7 @@ pub fn table() -> Vec<(&'static str, CheckFn, ReplayFn)> {
         ("C02", c02::check, c02::replay),
         ("C03", c03::check, c03::replay),
         ("C05", c05::check, c05::replay),
+        ("C06", c06::check, c06::replay),
         ("C07", c07::check, c07::replay),
         ("C08", c08::check, c08::replay),
         ("C10", c10::check, c10::replay),
